@@ -7,11 +7,11 @@ CONSTANTS
   NChunks1 = 2
   NChunks2 = 1
   SameHF = FALSE
-  Fetchers = 0
+  Fetchers = 1
   MaxPerPeer = 10
-  MaxArrive = 3
+  MaxArrive = 2
   MaxBad = 1
-  MaxChurn = 0
+  MaxChurn = 1
   Atomic = TRUE
   InitPool <- C14_PoolS1
   Fix_DropRejectedSenderChunks = TRUE
@@ -24,6 +24,8 @@ CONSTANTS
   Weak_RejectSendersIgnored = FALSE
   Weak_DupOverwrites = FALSE
   Weak_RejectNotBlacklisted = FALSE
+  Weak_FormatNotBlacklisted = FALSE
+  Weak_NoSyncerLevelCheck = FALSE
 INIT Init
 NEXT Next
 INVARIANTS TrustedOnly VerifiedBeforeDone InOrder AsRecorded RefetchHonoured NeverReused
